@@ -34,27 +34,29 @@ type PathSample struct {
 }
 
 type RunResult struct {
-	Spec        RunSpec
-	Paths       int
-	Dropped     int // paths ended by Assume
-	Steps       int
-	Queries     map[string]int
-	Covers      map[string]int
-	Violations  []Violation
-	Inconcl     map[string]int
-	Samples     []PathSample
-	Funcs       map[*ssa.Function]int
-	Stubs       map[string]bool
-	Assumes     int
-	SolverS     float64
-	WallS       float64
-	MaxSteps    int
-	Truncated   bool
-	NViol       int
-	NKnown      int
-	Nontrivial  int
-	obsByPrefix map[string][]string
-	Transcripts []Transcript
+	Spec         RunSpec
+	Paths        int
+	Dropped      int // paths ended by Assume
+	Steps        int
+	Queries      map[string]int
+	Covers       map[string]int
+	Violations   []Violation
+	Inconcl      map[string]int
+	StoppedEarly bool
+	nBudget      int
+	Samples      []PathSample
+	Funcs        map[*ssa.Function]int
+	Stubs        map[string]bool
+	Assumes      int
+	SolverS      float64
+	WallS        float64
+	MaxSteps     int
+	Truncated    bool
+	NViol        int
+	NKnown       int
+	Nontrivial   int
+	obsByPrefix  map[string][]string
+	Transcripts  []Transcript
 }
 
 func (r *RunResult) distinctViolations() []Violation {
@@ -250,6 +252,9 @@ func (w *World) Explore(spec RunSpec, known map[string]bool, workers int, seed i
 					} else {
 						res.NViol++
 					}
+					if v.Kind == "budget" && v.Known == "" {
+						res.nBudget++
+					}
 					if len(res.Violations) < 2000 {
 						res.Violations = append(res.Violations, v)
 					}
@@ -257,7 +262,16 @@ func (w *World) Explore(spec RunSpec, known map[string]bool, workers int, seed i
 				if sample != nil {
 					res.Samples = append(res.Samples, *sample)
 				}
-				if res.Paths+len(work) < maxPaths {
+				if res.NViol >= 400 || res.nBudget >= 24 {
+					// the run already has plenty of counterexamples to replay: exploring the rest of a broken
+					// tree adds nothing (never the case on a tree where the property holds)
+					if len(work) > 0 || len(x.newWork) > 0 {
+						res.StoppedEarly = true
+					}
+					pending -= len(work)
+					work = nil
+					pending--
+				} else if res.Paths+len(work) < maxPaths {
 					work = append(work, x.newWork...)
 					pending += len(x.newWork) - 1
 				} else {
@@ -273,6 +287,9 @@ func (w *World) Explore(spec RunSpec, known map[string]bool, workers int, seed i
 	}
 	wg.Wait()
 	res.WallS = time.Since(t1).Seconds()
+	if res.StoppedEarly {
+		res.Inconcl["exploration stopped early: enough violations collected"]++
+	}
 	if res.Truncated {
 		res.Inconcl[fmt.Sprintf("path budget %d exceeded", maxPaths)]++
 	}
